@@ -188,6 +188,7 @@ type Adapter struct {
 	// Olds are the contracts the current one was renewed / refreshed from, frozen at the moment
 	// they were replaced: the host still holds them and nothing may ever change them.
 	Olds      []frozen
+	AssumeRev *types.V2FileContract
 	switching bool
 	Switched  bool // a renewal has just replaced K (the replayer rebases its comparison)
 	// LastRenewal is the new contract handed to Contractor.RenewV2Contract by the last step, if any
@@ -286,6 +287,9 @@ func (a *Adapter) Roots(ids []int) []types.Hash256 {
 
 // current returns the revision the contractor holds (tracked by the recorder; no locking).
 func (a *Adapter) current() types.V2FileContract {
+	if a.AssumeRev != nil { // the renter pipelines this request against a revision it expects to be committed first
+		return *a.AssumeRev
+	}
 	a.E.C.mu.Lock()
 	defer a.E.C.mu.Unlock()
 	if r, ok := a.E.C.latest[a.K.ID]; ok {
@@ -884,6 +888,9 @@ func (a *Adapter) deliver(act Act) (out Outcome, err error) {
 		return out, fmt.Errorf("deliver: no open session %d", act.S)
 	}
 	out.Reply = noneReply()
+	if a.AssumeRev == nil && s.renew == nil {
+		s.existing = a.current() // what the host has locked (pipelined requests were built on a prediction)
+	}
 	switch s.rpc {
 	case "free":
 		if rej, why := s.readResp(&s.freeResp); rej {
